@@ -138,6 +138,23 @@ func init() {
 			case 1:
 				t.E = MExpr{Kind: "vagg", Op: pick(r, []string{"sort", "sort_desc"}), A: &MExpr{Kind: "range", Op: "sum_over_time", RangeS: 20, Unwrap: &MUnwrap{Label: "v"}}}
 				c11DistinctValues(&t)
+			case 2:
+				// two levels of `without`: the outer grouping must not touch the label sets of the inner
+				// series (topk/bottomk return them unchanged; the others aggregate exactly their group)
+				ls := distinctStrings(r, mLabels, 2)
+				var in *MExpr
+				if r.Intn(2) == 0 {
+					in = &MExpr{Kind: "vagg", Op: "sum", Group: &MGroup{Without: true, Labels: ls[:1]}, A: &MExpr{Kind: "range", Op: "sum_over_time", RangeS: 20, Unwrap: &MUnwrap{Label: "v"}}}
+				} else {
+					in = &MExpr{Kind: "range", Op: pick(r, []string{"max_over_time", "min_over_time"}), RangeS: pick(r, []int64{5, 20}), Unwrap: &MUnwrap{Label: "v"},
+						Group: &MGroup{Without: true, Labels: []string{ls[0], "v"}}}
+				}
+				op := pick(r, []string{"topk", "bottomk", "count", "max", "avg"})
+				t.E = MExpr{Kind: "vagg", Op: op, Group: &MGroup{Without: true, Labels: ls[1:]}, A: in}
+				if op == "topk" || op == "bottomk" {
+					t.E.Param = fmt.Sprint(1 + r.Intn(3))
+					c11DistinctValues(&t)
+				}
 			default:
 				t.E = *genVagg(r, 3, inner(r))
 			}
